@@ -108,8 +108,9 @@ MAP_UNITS = [
          properties=['C11', 'C04', 'C06', 'C03'],
          contract='''        requires self.wf(), key.wf()
         ensures match r {
-            Ok(i) => i < self.qualifiers@.len() && self.qualifiers@[i as int].0.0@ == key.canon(),
-            Err(i) => i <= self.qualifiers@.len()
+            Ok(i) => i < self.qualifiers@.len() && self.qualifiers@[i as int].0.0@ == key.canon()
+                && i == pos_of(self.qualifiers@, key.canon()),
+            Err(i) => i <= self.qualifiers@.len() && i == pos_of(self.qualifiers@, key.canon())
                 && (forall|j: int| 0 <= j < i ==> str_lt(#[trigger] self.qualifiers@[j].0.0@, key.canon()))
                 && (forall|j: int| i <= j < self.qualifiers@.len() ==> str_lt(key.canon(), #[trigger] self.qualifiers@[j].0.0@))
                 && !has_key(self.qualifiers@, key.canon()),
@@ -119,6 +120,24 @@ MAP_UNITS = [
                  '''pub fn search_cmp<K: AsRef<str>>(qk: &QualifierKey, key: &MixedQualifierKey<K>) -> (r: Ordering)
     ensures r == lex_cmp(qk.0@, lower_seq(key.text()))
 { \\1 }''', 'x_binary_search_keys(&self.qualifiers, key)')],
+         # R10: the tail expression is bound to a name so that a proof block can follow it
+         hints=[(r'x_binary_search_keys\(&self\.qualifiers, key\)', 'before', '        let res ='),
+                (r'x_binary_search_keys\(&self\.qualifiers, key\)', 'after', '''        ;
+        proof {
+            let v = self.qualifiers@;
+            let k = key.canon();
+            let i: int = match res { Ok(i) => i as int, Err(i) => i as int };
+            assert forall|j: int| 0 <= j < i implies str_lt(#[trigger] v[j].0.0@, k) by {
+                if res is Ok { assert(str_lt(v[j].0.0@, v[i].0.0@)); }
+            }
+            assert forall|j: int| i <= j < v.len() implies !str_lt(#[trigger] v[j].0.0@, k) by {
+                if res is Ok {
+                    if j == i { lemma_lt_irrefl(k); } else { assert(str_lt(v[i].0.0@, v[j].0.0@)); lemma_lt_asym(k, v[j].0.0@); }
+                } else { lemma_lt_asym(k, v[j].0.0@); }
+            }
+            lemma_pos_of(v, k, i);
+        }
+        res''')],
          begin='''        proof {
             lemma_canon_of_valid(key.text());
             lemma_lt_irrefl(key.canon());
@@ -216,7 +235,8 @@ pub proof fn lemma_gap_not_present(v: Seq<(QualifierKey, SmallString)>, i: int, 
     dict(id='U-qmap.get_index', file=F, fn='get_index', ctx=_Q, wrap='impl Qualifiers', properties=['C11', 'C04'],
          contract="""        requires self.wf()
         ensures match r {
-            Some(i) => valid_key(key.text()) && i < self.qualifiers@.len() && self.qualifiers@[i as int].0.0@ == lower_ascii_seq(key.text()),
+            Some(i) => valid_key(key.text()) && i < self.qualifiers@.len() && self.qualifiers@[i as int].0.0@ == lower_ascii_seq(key.text())
+                && i == pos_of(self.qualifiers@, lower_ascii_seq(key.text())),
             None => !valid_key(key.text()) || !has_key(self.qualifiers@, lower_ascii_seq(key.text())),
         }""",
          hints=[(r'self\.search\(&key\)\.ok\(\)', 'before', """        let ghost kt = key.text();
@@ -227,10 +247,88 @@ pub proof fn lemma_gap_not_present(v: Seq<(QualifierKey, SmallString)>, i: int, 
          ),
 ]
 
+
+MAP_UNITS3 = [
+    dict(id='U-qmap.get', file=F, fn='get', ctx=_Q, wrap='impl Qualifiers', properties=['C11', 'C04'],
+         contract="""        requires self.wf()
+        ensures
+            r is Some == (valid_key(key.text()) && has_key(self.qualifiers@, lower_ascii_seq(key.text()))),
+            r is Some ==> has_pair(self.qualifiers@, lower_ascii_seq(key.text()), r->Some_0@),""",
+         rw=[('R10', r'\|i\| self\.qualifiers\[i\]\.1\.as_str\(\)',
+              '|i: usize| -> (s: &str) requires i < self.qualifiers@.len() ensures s@ == self.qualifiers@[i as int].1@ { self.qualifiers[i].1.as_str() }', 1)]),
+    dict(id='U-qmap.contains_key', file=F, fn='contains_key', ctx=_Q, wrap='impl Qualifiers', properties=['C11'],
+         contract="""        requires self.wf()
+        ensures r == (valid_key(key.text()) && has_key(self.qualifiers@, lower_ascii_seq(key.text())))"""),
+    dict(id='U-qmap.insert', file=F, fn='insert', ctx=_Q, wrap='impl Qualifiers', properties=['C11', 'C04', 'C09', 'C12'],
+         contract="""        requires old(self).wf()
+        ensures
+            final(self).wf(),
+            !valid_key(key.text()) ==> r is Err && r->Err_0 is InvalidQualifier && final(self).qualifiers@ == old(self).qualifiers@,
+            valid_key(key.text()) ==> r is Ok
+                && (<SmallString as vstd::std_specs::convert::FromSpec<V>>::obeys_from_spec() ==>
+                        *(r->Ok_0) == <SmallString as vstd::std_specs::convert::FromSpec<V>>::from_spec(v)),
+            // whole-content postcondition (p names the position of the key = number of smaller keys):
+            // an existing key keeps its position and only its value changes ...
+            valid_key(key.text()) && has_key(old(self).qualifiers@, lower_ascii_seq(key.text())) ==> ({
+                let p = pos_of(old(self).qualifiers@, lower_ascii_seq(key.text()));
+                0 <= p < old(self).qualifiers@.len() && old(self).qualifiers@[p].0.0@ == lower_ascii_seq(key.text())
+                && final(self).qualifiers@ == old(self).qualifiers@.update(p, (old(self).qualifiers@[p].0, *final(r->Ok_0)))
+            }),
+            // ... a new key is spliced in at p, every other pair untouched and in the same order
+            valid_key(key.text()) && !has_key(old(self).qualifiers@, lower_ascii_seq(key.text())) ==> ({
+                let p = pos_of(old(self).qualifiers@, lower_ascii_seq(key.text()));
+                0 <= p <= old(self).qualifiers@.len()
+                && final(self).qualifiers@.len() == old(self).qualifiers@.len() + 1
+                && final(self).qualifiers@[p].0.0@ == lower_ascii_seq(key.text())
+                && final(self).qualifiers@ == old(self).qualifiers@.insert(p, (final(self).qualifiers@[p].0, *final(r->Ok_0)))
+            }),""",
+         hints=[
+             (r'let key = check_qualifier_key\(key\)\?;', 'after', '        let ghost kt = key.canon();\n        let ghost old_v = self.qualifiers@;'),
+             (r'self\.qualifiers\[i\]\.1 = SmallString::from\(v\);', 'after',
+              '                proof { lemma_update_value_keeps_wf(old_v, i as int, self.qualifiers@[i as int].1); assert(old_v[i as int].0.0@ == kt); assert(has_key(old_v, kt)); }'),
+             (r'self\.qualifiers\.insert\(i, \(key\.into_key\(\), SmallString::from\(v\)\)\);', 'after',
+              '                proof { lemma_insert_keeps_wf(old_v, i as int, self.qualifiers@[i as int]); assert(!has_key(old_v, kt)); assert(self.qualifiers@[i as int].0.0@ == kt); }'),
+             (r'Ok\(&mut self\.qualifiers\[index\]\.1\)', 'before', """        proof {
+            let mid = self.qualifiers@;
+            let ix = index as int;
+            assert forall|x: SmallString| wf_seq(#[trigger] mid.update(ix, (mid[ix].0, x))) by {
+                lemma_update_value_keeps_wf(mid, ix, x);
+            }
+            if has_key(old_v, kt) {
+                assert forall|x: SmallString| #[trigger] mid.update(ix, (mid[ix].0, x)) == old_v.update(ix, (old_v[ix].0, x)) by {
+                    assert(mid.update(ix, (mid[ix].0, x)) =~= old_v.update(ix, (old_v[ix].0, x)));
+                }
+            } else {
+                assert(mid.len() == old_v.len() + 1);
+                assert(mid[ix].0.0@ == kt);
+                assert forall|x: SmallString| {
+                    let w = #[trigger] mid.update(ix, (mid[ix].0, x));
+                    w == old_v.insert(ix, (w[ix].0, x)) && w[ix].0.0@ == kt && w.len() == old_v.len() + 1
+                } by {
+                    assert(mid.update(ix, (mid[ix].0, x)) =~= old_v.insert(ix, (mid[ix].0, x)));
+                }
+            }
+        }"""),
+         ]),
+    dict(id='U-qmap.remove', file=F, fn='remove', ctx=_Q, wrap='impl Qualifiers', properties=['C11', 'C09'],
+         contract="""        requires old(self).wf()
+        ensures
+            final(self).wf(),
+            r is Some == (valid_key(key.text()) && has_key(old(self).qualifiers@, lower_ascii_seq(key.text()))),
+            r is None ==> final(self).qualifiers@ == old(self).qualifiers@,
+            r is Some ==> ({
+                let p = pos_of(old(self).qualifiers@, lower_ascii_seq(key.text()));
+                0 <= p < old(self).qualifiers@.len() && old(self).qualifiers@[p].0.0@ == lower_ascii_seq(key.text())
+                && r->Some_0 == old(self).qualifiers@[p].1
+                && final(self).qualifiers@ == old(self).qualifiers@.remove(p)
+            }),""",
+         ),
+]
+
 GROUP = dict(
     name='qual',
     theory=['base.rs'],
     uses='use core::cmp::Ordering;\nuse core::marker::PhantomData;',
     canary='    axiom_string_from(); broadcast use axiom_ascii_to_lower; broadcast use axiom_view_of_str; axiom_from_keeps_text::<&str>();',
-    units=[_c.PURL_FIELD, _c.PARSE_ERROR, _c.QUALIFIER_KEY, _c.QUALIFIERS] + KEY_UNITS + CMP_UNITS + MAP_UNITS + MAP_UNITS2,
+    units=[_c.PURL_FIELD, _c.PARSE_ERROR, _c.QUALIFIER_KEY, _c.QUALIFIERS] + KEY_UNITS + CMP_UNITS + MAP_UNITS + MAP_UNITS2 + MAP_UNITS3,
 )
